@@ -1,5 +1,6 @@
 import GB.Base.Proto
 import GB.C09.Spec
+import GB.C09.Text
 /-
   C09 driver.  Case lines (all byte strings hex, see harness/c09):
 
@@ -388,25 +389,95 @@ decreasing_by
     have : sizeOf p.2 < sizeOf p := by cases p; simp; omega
     omega
 
+/-- order-sensitive text of a tree (to compare the Lean reader's tree with the tokenizer's) -/
+def showJOrd : J → String
+  | .null => "z" | .bool b => if b then "t" else "f"
+  | .num l => "n" ++ hex l | .str s => "s" ++ hex s
+  | .arr xs => "[" ++ ",".intercalate (xs.attach.map fun ⟨x, _⟩ => showJOrd x) ++ "]"
+  | .obj kvs => "{" ++ ",".intercalate (kvs.attach.map fun ⟨p, _⟩ => "k" ++ hex p.1 ++ ":" ++ showJOrd p.2) ++ "}"
+termination_by j => sizeOf j
+decreasing_by
+  all_goals simp_wf
+  · have := List.sizeOf_lt_of_mem ‹_›; omega
+  · have h := List.sizeOf_lt_of_mem ‹_›
+    have : sizeOf p.2 < sizeOf p := by cases p; simp; omega
+    omega
+
+def showOJ : Option J → String
+  | none => "!"
+  | some j => showJOrd j
+
+/-- the successive values of a stream as the Lean reader sees them: until the end of input or the first error -/
+def readAll : Nat → Bytes → List (Option J)
+  | 0, _ => []
+  | fuel + 1, s =>
+    if (skipWS s).isEmpty then []
+    else match parseJSON s with
+      | some (j, rest) => some j :: readAll fuel rest
+      | none => [none]
+
+/-- cross-check of the harness-provided tree(s) with the Lean reader on the raw text -/
+def treeCheck (text : Bytes) (harness : List (Option J)) (firstOnly : Bool) : Option String :=
+  let mine := if firstOnly then [(parseJSON text).map (·.1)] else readAll 65 text
+  if mine.map showOJ == harness.map showOJ then none
+  else some s!"BAD tree text-reader={mine.map showOJ} harness={harness.map showOJ}"
+
+/-- the stream text of a `seq` payload `<sep>:<hex>,<hex>,…` (harness/c09 joinBodies) -/
+def joinBodies (payload : String) : Option Bytes :=
+  match payload.toList with
+  | sep :: ':' :: hs =>
+    let seps : List Bytes := match sep with
+      | 'n' => [[10]] | 's' => [[32]] | 'c' => [[]] | 'r' => [[13, 10]] | 'm' => [[10], [32, 32], [9, 10, 10], []]
+      | _ => []
+    if seps.isEmpty then none
+    else
+      let bodies := (String.ofList hs).splitOn ","
+      let rec go (bs : List String) (k : Nat) (acc : Bytes) : Option Bytes :=
+        match bs with
+        | [] => some acc
+        | b :: rest =>
+          match unhex b with
+          | some x => go rest (k + 1) (acc ++ x ++ (seps.getD (k % seps.length) []))
+          | none => none
+      go bodies 0 []
+  | _ => none
+
+/-- the bytes `json.Marshal` writes for the model's tree: members sorted by name, compact -/
+def renderSorted (j : J) : Bytes :=
+  renderCompact (match j with
+    | .obj kvs => .obj (sortMembers kvs)
+    | j => j)
+
 def handle : Handler
   | ["dec", os, cs, ks, keys, _text], [u, ts, fps, impls, oracles] =>
     match parseKind ks, parseCard cs keys, parseFp fps, parseObs impls, parseObs oracles with
     | some k, some (c, explicit), some fp, some impl, some oracle =>
       let tree := if ts == "!" then some none else (parseTree ts).map some
-      match tree with
-      | none => "BAD tree"
-      | some tree =>
-        if !fpSane (is32 k) fp then "DIFF float-table-not-exact-on-small-integers"
-        else judgeDec (tableOps fp []) (parseOpts os) c explicit k tree (u == "u1") impl oracle
+      match tree, parseHex _text with
+      | some tree, some text =>
+        match treeCheck text [tree] true with
+        | some bad => bad
+        | none =>
+          if !fpSane (is32 k) fp then "DIFF float-table-not-exact-on-small-integers"
+          else judgeDec (tableOps fp []) (parseOpts os) c explicit k tree (u == "u1") impl oracle
+      | _, _ => "BAD tree"
     | _, _, _, _, _ => "BAD dec fields"
-  | ["enc", os, cs, ks, keys, fs], [ts, ffs, fps, rts, cds] =>
+  | ["enc", os, cs, ks, keys, fs], [ts, ffs, fps, rts, cds, txt] =>
     match parseKind ks, parseCard cs keys, parseField fs, parseFf ffs, parseFp fps with
     | some k, some (c, _), some f, some ff, some fp =>
       let ops := tableOps fp ff
       let o := parseOpts os
       let kt := kindTag k
       if ts == "PANIC" || rts == "PANIC" || cds == "PANIC" then "VIOL panic"
-      else if !encodable k f then s!"OK b=enc.{kt}.unrepresentable"
+      else if !encodable k f then
+        -- outside the round-trip domain (invalid UTF-8 in a string, NullValue ≠ 0): the renderer and the reader's
+        -- normalisation are still checked against the real text
+        match encode ops o k f, parseTree ts with
+        | .ok mj, some ij =>
+          if parseHex txt != some (renderSorted mj) then s!"DIFF render model-text={toHex (renderSorted mj)}"
+          else if showJ ij != showJ (sanitize mj) then s!"DIFF sanitize model={showJ (sanitize mj)}"
+          else s!"OK b=enc.{kt}.unrepresentable"
+        | _, _ => s!"OK b=enc.{kt}.unrepresentable"
       else
         let model := encode ops o k f
         match model with
@@ -423,6 +494,8 @@ def handle : Handler
               if got rts != some want then s!"VIOL roundtrip got={rts} want={want} text={showJ ij}"
               else if got cds != some want then s!"VIOL canonical-not-accepted got={cds} want={want}"
               else if showJ ij != showJ mj then s!"DIFF model={showJ mj}"
+              else if parseHex txt != some (renderSorted mj) then s!"DIFF render model-text={toHex (renderSorted mj)}"
+              else if ((parseHex txt).bind fun t => (parseJSON t).map (fun p => showJOrd p.1)) != some (showJOrd ij) then "BAD tree enc-text"
               else match decode ops o c k mj with
                 | .ok g => if showField (g.read k) == want then s!"OK nt b=enc.{kt}" else s!"DIFF model-roundtrip={showField g}"
                 | r => s!"DIFF model-roundtrip={resTag r}"
@@ -443,6 +516,10 @@ def handle : Handler
       let o := parseOpts os
       let trees := if tss == "-" then [] else tss.splitOn ";"
       let ress := if ress == "-" then [] else ress.splitOn ";"
+      let htrees := trees.mapM fun t => if t == "!" then some none else (parseTree t).map some
+      let bad : Option String := match htrees, parseHex _text with
+        | some ht, some text => treeCheck text ht false
+        | _, _ => some "BAD sdec trees"
       -- the model decodes value after value and stops at the first error (the harness does the same)
       let rec go (ts rs : List String) (n : Nat) : String :=
         match ts, rs with
@@ -460,7 +537,9 @@ def handle : Handler
           | _, _ => "BAD sdec item"
         | _, _ => s!"DIFF stream-length trees={trees.length} results={ress.length}"
       let _ := u
-      go trees ress 0
+      match bad with
+      | some b => b
+      | none => go trees ress 0
     | _, _, _ => "BAD sdec fields"
   | [op, os, cs, ks, keys, _texts], [u, tss, fps, ress, orcs] =>
     if op == "seqd" || op == "seqt" then
@@ -472,13 +551,18 @@ def handle : Handler
         let oracles := (split orcs).mapM parseObs
         match trees, impls, oracles with
         | some trees, some impls, some oracles =>
-          if !fpSane (is32 k) fp then "DIFF float-table-not-exact-on-small-integers"
+          if let some bad := (joinBodies _texts).bind fun t => treeCheck t trees false then bad
+          else if (joinBodies _texts).isNone then "BAD seq payload"
+          else if !fpSane (is32 k) fp then "DIFF float-table-not-exact-on-small-integers"
           else judgeStream (tableOps fp []) (parseOpts os) c explicit k (u == "u1") trees impls oracles
         | _, _, _ => "BAD seq items"
       | _, _, _ => "BAD seq fields"
-    else "BAD c09 line"
-  | [op, os, cs, ks, keys, fss], [tss, ffs, fps, rts] =>
-    if op == "sencd" || op == "senct" then
+    else if op == "sencd" || op == "senct" then
+      let fss := _texts
+      let streamHex := orcs
+      let rts := ress
+      let ffs := tss
+      let tss := u
       match parseKind ks, parseCard cs keys, (fss.splitOn ";").mapM parseField, parseFf ffs, parseFp fps with
       | some k, some (c, _), some fs, some ff, some fp =>
         let ops := tableOps fp ff
@@ -493,7 +577,7 @@ def handle : Handler
           else if tss == "ERR" then "VIOL cannot-encode-stream"
           else
             match (tss.splitOn ";").mapM parseTree with
-            | none => "BAD senc trees"
+            | none => if (tss.splitOn ";").contains "!" then "VIOL stream-encoder-wrote-invalid-json" else "BAD senc trees"
             | some its =>
               -- the property first: decoding the stream the encoder wrote gives the values back, one by one
               let want := fs.map fun f => showField (f.read k)
@@ -502,6 +586,8 @@ def handle : Handler
                 | _ => "?" ++ s
               if got != want then s!"VIOL stream-roundtrip got={rts} want={want}"
               else if its.map showJ != written.map showJ then s!"DIFF model={written.map showJ}"
+              else if parseHex streamHex != some (written.flatMap fun j => renderSorted j ++ [10]) then "DIFF render stream-text"
+              else if ((parseHex streamHex).map fun t => (readAll 65 t).map showOJ) != some (its.map fun j => showJOrd j) then "BAD tree senc-text"
               else
                 let back := decodeStream ops o c k written
                 if back.map (fun r => match r with | .ok g => showField (g.read k) | _ => "?") == want then s!"OK nt b=senc.{kt}.len{fs.length}"
